@@ -62,6 +62,13 @@ def handle (op : String) (args : List String) : Option (String × String) :=
     if r < 2 ∨ r > 36 then pure ("panic radix", "panic radix") else
     let n := (Nat.toDigits r (val x)).length
     pure ("ok " ++ toString n, "ok " ++ toString n)
+  -- the BigInt text entry points on their own (`BigInt::to_str_radix` does not go through `BigUint::to_str_radix`):
+  -- length of the text of ±x, or the radix panic
+  | "i.text", [r, sg, x] => do
+    let r ← parseNat r; let x ← parseLimbs x
+    if r < 2 ∨ r > 36 then pure ("panic radix", "panic radix") else
+    let n := (Nat.toDigits r (val x)).length + (if sg == "-" ∧ val x ≠ 0 then 1 else 0)
+    pure ("ok " ++ toString n, "ok " ++ toString n)
   | "gen_biguint", [_, _] => pure ("ok", "ok")
   | _, _ => none
 
